@@ -41,8 +41,18 @@ print("DIGESTS " + json.dumps(out))
 def _fresh_interpreter(modname: str, tier: str, seeds: List[int], hashseed: str) -> Dict[str, Any]:
     env = dict(os.environ, PYTHONHASHSEED=hashseed)
     code = _SNIPPET.format(verif=kit.VERIF, modname=modname, seeds=seeds, tier=tier)
-    p = subprocess.run([sys.executable, "-B", "-c", code], env=env, capture_output=True,
-                       text=True, timeout=600)
+    # run from a file, not with -c: the main module of `python -c` has the file name "<string>",
+    # which is also the file name of transpiled CEL programs
+    import tempfile
+
+    with tempfile.NamedTemporaryFile("w", suffix=".py", prefix="verif_selftest_", delete=False) as f:
+        f.write(code)
+        path = f.name
+    try:
+        p = subprocess.run([sys.executable, "-B", path], env=env, capture_output=True,
+                           text=True, timeout=600)
+    finally:
+        os.unlink(path)
     for line in p.stdout.splitlines():
         if line.startswith("DIGESTS "):
             return json.loads(line[8:])
